@@ -104,12 +104,21 @@ class Cosmo(object):
         self._omega_l = omega_l
         self._omega_k = omega_k
 
+        # numpy scalars of lower precision (e.g. float32) would otherwise
+        # make the arithmetic below run in that precision
+        omega_m = float(omega_m)
+        omega_l = float(omega_l)
+        if omega_k is not None:
+            omega_k = float(omega_k)
+
         flat, omega_m, omega_l, omega_k = self.extract_parms(
             omega_m, omega_l, omega_k, flat
         )
 
         if h is not None:
+            h = float(h)
             H0 = 100.0 * h
+        H0 = float(H0)
 
         DH = _CLIGHT / H0
 
